@@ -37,16 +37,6 @@ Fixpoint decode_store (l : list Z) : store :=
 
 Definition zl_eqb := list_eqb Z.eqb.
 
-Definition size_of (st : store) (s : Z) : Z :=
-  match lookup st s with Some (sz, _) => sz | None => 0 end.
-
-(** Known finding 1 signature: [s] is deliverable, was counted (s <= upd) but is
-    not in the payload, and the sizes appended before it plus its own size equal
-    the limit exactly. *)
-Definition exact_fill (st : store) (max : Z) (payload : list Z) (s : Z) : bool :=
-  let before := filter (fun p => p <? s) payload in
-  fold_left (fun acc p => acc + size_of st p) before 0 + size_of st s =? max.
-
 Fixpoint first_missing (expected got : list Z) : option Z :=
   match expected, got with
   | e :: et, g :: gt => if e =? g then first_missing et gt else Some e
@@ -72,13 +62,7 @@ Definition check_gpd (ty : Z) (stl : list Z) (start count max : Z) (res : list Z
       if (code =? 0) || (code =? 1) then
         let expected := expected_acked k st start upd in
         if zl_eqb seqs expected then mk_verdict m true
-        else
-          let kf := match first_missing expected seqs with
-                    | Some s => if match k with KRecv => true | _ => false end && exact_fill st max seqs s
-                                then 1%N else 0%N
-                    | None => 0%N
-                    end in
-          (m, false, kf)
+        else (m, false, 0%N)
       else mk_verdict m ((code =? 2) || (code =? 3))
   | _ => mk_verdict false false
   end.
@@ -220,12 +204,6 @@ Definition spec_step (k : kind) (st : store) (s : sst) (e : list Z) : sst :=
   | [] => s
   end.
 
-Definition find_cover (posts : list (list Z * Z)) (s : Z) : option (list Z) :=
-  match filter (fun p => s <=? snd p) (rev posts) with
-  | p :: _ => Some (fst p)
-  | [] => None
-  end.
-
 Definition check_hist (ty maxsize f2s : Z) (stl : list Z) (trace : list (list Z)) : verdict :=
   let st := decode_store stl in
   let k := kind_of ty in
@@ -243,19 +221,7 @@ Definition check_hist (ty maxsize f2s : Z) (stl : list Z) (trace : list (list Z)
       if s_ok s && zl_eqb acked (expected_acked k st first la)
          && match missing with None => true | Some _ => false end
       then mk_verdict m true
-      else
-        let kf :=
-          match missing with
-          | Some x =>
-              match find_cover (s_posts s) x with
-              | Some payload =>
-                  if match k with KRecv => true | _ => false end && exact_fill st maxsize payload x
-                  then 1%N else 0%N
-              | None => 0%N
-              end
-          | None => 0%N
-          end in
-        (m, false, kf)
+      else (m, false, 0%N)
   end.
 
 Definition check_case (c : case) : verdict :=
